@@ -28,7 +28,9 @@ contract("parglare.actions.collect_first",
          requires=["len(nodes) == 2", "allocated(nodes[0])"],
          locals={"e1": "list[any]", "e2": "opt[any]"},
          ensures=[
-             "implies(nodes[1] is None, result == nodes[0])",
+             # (a missing element: the accumulated list as it is -- the same object or a copy, not specified)
+             "implies(nodes[1] is None, (result == nodes[0] or fresh(result)) and len(result) == old(len(nodes[0])) and "
+             "forall(0, old(len(nodes[0])), lambda i: result[i] == old(nodes[0][i])))",
              "implies(nodes[1] is not None, fresh(result) and len(result) == old(len(nodes[0])) + 1)",
              "implies(nodes[1] is not None, forall(0, old(len(nodes[0])), lambda i: result[i] == old(nodes[0][i])))",
              "implies(nodes[1] is not None, result[old(len(nodes[0]))] == nodes[1])",
@@ -41,7 +43,8 @@ contract("parglare.actions.collect_first_sep",
          requires=["len(nodes) == 3", "allocated(nodes[0])"],
          locals={"e1": "list[any]", "e2": "opt[any]"},
          ensures=[
-             "implies(nodes[2] is None, result == nodes[0])",
+             "implies(nodes[2] is None, (result == nodes[0] or fresh(result)) and len(result) == old(len(nodes[0])) and "
+             "forall(0, old(len(nodes[0])), lambda i: result[i] == old(nodes[0][i])))",
              "implies(nodes[2] is not None, fresh(result) and len(result) == old(len(nodes[0])) + 1)",
              "implies(nodes[2] is not None, forall(0, old(len(nodes[0])), lambda i: result[i] == old(nodes[0][i])))",
              "implies(nodes[2] is not None, result[old(len(nodes[0]))] == nodes[2])",
